@@ -49,6 +49,9 @@ void vs_on_deadlock(void (*h)(const char* detail));
 void vs_on_fixpoint(void (*h)(const char* detail));
 // number of threads currently blocked in a (modelled) futex wait / unfinished & blocked anywhere
 int  vs_blocked_count(void);
+// totals since vs_begin: futex waits that really blocked / threads made runnable again by a futex wake
+long vs_futex_blocked_total(void);
+long vs_futex_woken_total(void);
 int  vs_thread_state(int id);  // 0 run 1 futex 2 join 3 pred 4 finished
 int  vs_nthreads(void);
 extern int vs_tso_on;
